@@ -73,8 +73,26 @@ func scenarioShutdown(w *world) {
 	w.net.faultsOn = true
 	x.start()
 
+	// systematic leg: {initiating side} x {one-sided, crossed at once, crossed 5 ms later} x every placement of at most k
+	// faults on the first n packets of each direction after Shutdown was invoked (the cell follows from seed - sweep_base)
+	sweep := w.params["c08_sweep"] != 0
+	sweepCfg := 0
+	when := tp.intn(3)
+	if sweep {
+		n, k := w.params["sweep_n"], w.params["sweep_k"]
+		space := sweepPlacementCount(n, k) * 6
+		idx := int(w.seed-uint64(w.params["sweep_base"])) % space
+		if w.extra == nil {
+			w.extra = map[string]any{}
+		}
+		w.extra["sweep_index"], w.extra["sweep_space"] = idx, space
+		sweepCfg = idx % 6
+		sweepPlacement(w, idx/6, n, k)
+		w.net.faultsOn = false
+		when = 2
+	}
 	// when to shut down: immediately, mid-transfer, or after the writers are done
-	switch tp.intn(3) {
+	switch when {
 	case 0:
 	case 1:
 		w.sleep(time.Duration(tp.intn(2000)) * time.Millisecond)
@@ -89,6 +107,15 @@ func scenarioShutdown(w *world) {
 	offset := time.Duration(0)
 	if crossed {
 		offset = time.Duration(pick(tp, 0, 0, 1, 5, 50, 300, 1500)) * time.Millisecond
+	}
+	if sweep {
+		first = sweepCfg % 2
+		crossed = sweepCfg/2 > 0
+		offset = time.Duration((sweepCfg/2-1)*5) * time.Millisecond
+		if !crossed {
+			offset = 0
+		}
+		w.net.mark() // fault positions count from the packets emitted after this point
 	}
 	calls := []*shutdownCall{{side: first}}
 	if crossed {
@@ -156,7 +183,7 @@ func scenarioShutdown(w *world) {
 		}
 		return accState(w.eps[0].assoc) == closed && accState(w.eps[1].assoc) == closed
 	}
-	if tp.intn(3) == 0 {
+	if tp.intn(3) == 0 && !sweep {
 		// a long outage in the middle of the shutdown sequence: T2 backs off, and must keep trying
 		w.run(allReturned, w.now()+time.Duration(tp.intn(3000))*time.Millisecond)
 		if w.stopped() {
